@@ -34,6 +34,9 @@ def main():
     rnd.shuffle(corpus)
     corpus = corpus[:(300 if quick else 5000)]
     seeds += corpus
+    for t in pegrun.EXTRA_TEXTS:
+        seeds.append(pegrun.syms(t))
+        seeds.append(pegrun.mutate(rnd, pegrun.syms(t)))
     uniq = pegrun.cheap(seeds, cap, wd)
     world = pegrun.peg_world(toks, 2 if quick else 3, 1, uniq, later=pegrun.LATER)
     res = pegrun.run_peg(chk, "c15", world, shapes=False)
@@ -47,6 +50,7 @@ def main():
     chk.notes["fuzz_corpus_inputs_offered"] = len(corpus)
     chk.notes["unmodelled_inputs"] = res["unmodelled"]
     chk.notes["step_count_mismatches (fingerprint, not a verdict)"] = len(res["steps"])
+    chk.notes["step_traces_compared (kind and position of every parseExpr call, spec vs hook)"] = res.get("tracescompared", 0)
     chk.notes["rule"] = ("every sequence of <= %d tokens over %d tokens (keywords, identifier shapes, numbers and near-numbers, complete / unterminated "
                          "/ badly escaped strings, punctuation, non-ASCII letter / number / symbol, invalid UTF-8, NUL) with and without separating "
                          "blanks (<= 1 open parenthesis), plus %d renderings of random trees (6 style profiles) and token-level mutations of them; "
